@@ -1,7 +1,8 @@
 SPECIFICATION Spec
 CONSTANTS
-  T = 3
-  MaxRows = 400
+  T = 2
+  MaxRows = 60
+  Variants = {0, 1, 2, 3, 4, 5, 6, 7, 8, 9, 10, 11, 12, 13, 14, 15, 16, 17, 18, 19}
 INVARIANT RowValid
 INVARIANT BoundNotReached
 PROPERTY Progress
